@@ -71,12 +71,12 @@ PROPS = {
         "note": "Trusted as C01. Table byte sizes are inputs (quantified).",
         "trusted_base": COMMON_TB + ["modelled, not verified: the byte-level tables, merge heap, skip list, memstore and WAL are represented by their abstract layers (their own refinement theorems are C03/C08/C14/C16/C07); float32 arithmetic of the size estimate and tombstone ratio (rotation points and table sizes are inputs, quantified in the theorems); Go scheduler (sequential client; concurrency is C05)"],
         "assumptions": ["modelled, not verified: the byte-level tables, merge heap, skip list, memstore and WAL are represented by their abstract layers (their own refinement theorems are C03/C08/C14/C16/C07); float32 arithmetic of the size estimate and tombstone ratio (rotation points and table sizes are inputs, quantified in the theorems); Go scheduler (sequential client; concurrency is C05)"],
-        "also": ["C01"],
         "explanation": "proof over the layer model; correspondence run ties the model to the current source",
     },
     "C17": {
         "title": "A SimpleDB call that returns an error has no effect; string and byte APIs agree",
-        "streams": [{"name": "db", "quick": 250, "thorough": 12000, "thorough_seeds": 3}],
+        "streams": [{"name": "db", "quick": 250, "thorough": 12000, "thorough_seeds": 3},
+                    {"name": "crash", "args": ["--flavour", "reject"], "quick": 6, "thorough": 18, "thorough_seeds": 2}],
         "technique": "Lean 4 proof (case analysis of every step: rejected calls leave the state unchanged; flavour equality; read stability) + differential correspondence mixing rejected/accepted calls through both flavours",
         "level": "proof",
         "design_ref": "§5 C17",
@@ -84,7 +84,6 @@ PROPS = {
         "note": "Trusted as C01; the 'after a crash followed by recovery' part rests on the C02 machinery (abstract file system model + real crash images).",
         "trusted_base": COMMON_TB + ["modelled, not verified: the byte-level tables, merge heap, skip list, memstore and WAL are represented by their abstract layers (their own refinement theorems are C03/C08/C14/C16/C07); float32 arithmetic of the size estimate and tombstone ratio (rotation points and table sizes are inputs, quantified in the theorems); Go scheduler (sequential client; concurrency is C05)"],
         "assumptions": ["modelled, not verified: the byte-level tables, merge heap, skip list, memstore and WAL are represented by their abstract layers (their own refinement theorems are C03/C08/C14/C16/C07); float32 arithmetic of the size estimate and tombstone ratio (rotation points and table sizes are inputs, quantified in the theorems); Go scheduler (sequential client; concurrency is C05)"],
-        "also": ["C01"],
         "explanation": "proof over the layer model; correspondence run ties the model to the current source",
     },
     "C20": {
@@ -109,7 +108,6 @@ PROPS = {
         "note": "As coded and stated in the theorems: Get on a tombstoned key returns (nil,nil) not NotFound; Contains is true for tombstoned keys; scans return empty non-nil values; latest-wins compaction drops tombstone records. Trusted: Lean kernel, three standard axioms, harness. Modelled: a table is an abstract sorted reader (byte-level tables: C03), protobuf decoding of the empty key as nil, the stream writer as an order-enforcing WriteNext.",
         "trusted_base": COMMON_TB + ["modelled, not verified at this layer: the byte-level table reader/writer (abstract sorted reader; protobuf-decoded empty key = nil), bloom filter (no false negatives)"],
         "assumptions": ["comparator is skiplist.BytesComparator (bytes.Compare; proved consistent)", "each input table is strictly ascending", "writer opened and fresh for the merge theorems"],
-        "also": ["C11"],
         "explanation": "proof over the model for all inputs; correspondence run ties the model to the current source",
     },
     "C11": {
@@ -123,7 +121,6 @@ PROPS = {
         "note": "PARTIAL with respect to the whole property: the system-level half (a failing write inside flush/compaction/Close is reported and an incomplete output is never installed) is exercised by fault injection through the writer hook (streams sst / dbfault), not by a theorem.",
         "trusted_base": COMMON_TB + ["modelled, not verified at this layer: input iterators as (items, failing call) and the stream writer as an abstract WriteNext whose I/O fault precedes the ordering check"],
         "assumptions": ["comparator is skiplist.BytesComparator", "an iterator is not called again after it returned a non-Done error (true for Merge/MergeCompact)"],
-        "also": ["C08"],
         "explanation": "proof over the model for all inputs and fault sets; correspondence run ties the model to the current source",
     },
     "C14": {
@@ -152,7 +149,6 @@ PROPS = {
     },
     "C05": {'title': 'Concurrent Get/Put/Delete are linearizable while flushes and compactions run',
  'streams': [{'name': 'conc', 'quick': 40, 'thorough': 500, 'thorough_seeds': 2}, {'name': 'race', 'quick': 2, 'thorough': 16, 'thorough_seeds': 1}],
- 'also': ['C18'],
  'technique': 'Lean 4 proof over an interleaving semantics at lock granularity (invariant over all lock-admissible micro-step schedules; constructive '
               'sequential witness) + regenerated lock facts (decide over the extracted access table) + recorded concurrent histories of the real DB checked '
               'with porcupine and replayed through the L6 and L7 models',
@@ -184,7 +180,6 @@ PROPS = {
  "porcupine (linearizability checker, vendored through /repo's replace directive) as validation oracle only"]},
     "C18": {'title': 'Documented concurrent use is data-race free and gives single-threaded answers',
  'streams': [{'name': 'race', 'quick': 3, 'thorough': 32, 'thorough_seeds': 1}, {'name': 'conc', 'quick': 10, 'thorough': 100, 'thorough_seeds': 1}],
- 'also': ['C05'],
  'technique': 'Lean 4 `decide` over the access table and purity facts REGENERATED from the source on every run (the quantifier is the table) + purity of the '
               'read operations in the models + `go build -race` stress of the three handles against precomputed single-threaded answers',
  'level': 'proof',
@@ -222,5 +217,77 @@ PROPS = {
         "trusted_base": COMMON_TB + [RIO_MODELLED, "strace and the image replayer of the crash stream (kill-9 model: a completed system call is retained, each call is atomic)"],
         "assumptions": ["compressors lawful (dec (enc x) = some x)", "record sizes fit 64-bit header fields", "flat WAL directory written only by the appender", "OS resources (descriptors, memory) unbounded in the model"],
         "explanation": "proof over the model for all programs and crash prefixes; correspondence runs tie the model to the current source",
+    },
+    "C15": {
+        "title": "A table holds exactly the accepted writes, ascending, with truthful metadata",
+        "streams": [{"name": "sst", "quick": 250, "thorough": 600, "thorough_seeds": 2}],
+        "technique": "Lean 4 proof (writer state machine over the recordio writer model with fault inputs and Seek rollback; induction over call programs) + differential correspondence on byte-exact index.rio/data.rio/meta.pb.bin with injected faults",
+        "level": "proof",
+        "design_ref": "§5 C15",
+        "text": "Theorems for ALL WriteNext programs (arbitrary keys) x ALL fault subsets (data-append / index-append) x any comparator and compressors: a fault-free call is accepted iff its key is strictly greater than the last ACCEPTED key or it is the first (writer_accepts_iff_ascending); a faulted call leaves the closed files and metadata exactly as if it had not been made and the same key can be retried (fault_rolled_back, call_results); after Close index.rio/data.rio decode to exactly the accepted pairs, strictly ascending (closed_table_eq_accepted); NumRecords, NullValues, MinKey, MaxKey, DataBytes/IndexBytes = file lengths, TotalBytes (metadata_truthful, metaOf_fields). The model predicts the three files byte for byte (compressor oracle); tied on every run through generated programs with fault masks injected via the tag-guarded writer hook.",
+        "note": "Trusted: Lean kernel, three standard axioms, harness. " + "modelled, not verified: gzip/snappy/lzw (law dec (enc x) = some x; oracle table from the real compressors), the bloom filter library (abstract predicate without false negatives; bloom.bf.gz is opaque), the protobuf runtime (wire codec of IndexEntry/MetaData modelled in Model/Proto.lean and tied by byte-exact files), x/exp/mmap, the OS; recordio V1-V3 readers and version-0 tables are not modelled",
+        "trusted_base": COMMON_TB + ["modelled, not verified: gzip/snappy/lzw (law dec (enc x) = some x; oracle table from the real compressors), the bloom filter library (abstract predicate without false negatives; bloom.bf.gz is opaque), the protobuf runtime (wire codec of IndexEntry/MetaData modelled in Model/Proto.lean and tied by byte-exact files), x/exp/mmap, the OS; recordio V1-V3 readers and version-0 tables are not modelled"],
+        "assumptions": ["compressors lawful", "sizes fit 64-bit fields"],
+        "explanation": "proof over the model for all programs and fault sets; correspondence run ties the model to the current source",
+    },
+    "C03": {
+        "title": "An SSTable returns exactly what was written, for every index type and option",
+        "streams": [{"name": "sst", "quick": 250, "thorough": 600, "thorough_seeds": 2}],
+        "technique": "Lean 4 proof (binary-search spec, skip-list refinement of C16, padded-map lookup, recordio round trips of C04; readers per index loader) + differential correspondence on byte-exact tables and every reader configuration",
+        "level": "proof",
+        "design_ref": "§5 C03",
+        "text": "Theorems for ALL strictly ascending key lists, ALL values (nil, empty, marker bytes), any lawful compressor pair, any bloom filter without false negatives: Contains/Get/Scan/ScanStartingAt/ScanRange of open(write kvs) equal the sorted-map answers for the slice (default) and skip-list loaders (table_reads_as_map_slice/_skip, contains_no_false_negative); for the padded map loader the scans always and Get/Contains under PadInjective (…_map_partial + counterexample map_index_pad_collision); for the EXPERIMENTAL disk loader open + full Scan under NoPhantom (…_disk_partial) with four counterexample theorems for what is false of the code. Tied on every run: generated tables x 4x4 compression pairs x buffer sizes x bloom sizing x six reader configurations with all probes/bounds, byte-exact files.",
+        "note": "PARTIAL for the map loader (zero-padding collisions) and the experimental disk loader (known findings with signatures). Trusted: Lean kernel, three standard axioms, harness. " + "modelled, not verified: gzip/snappy/lzw (law dec (enc x) = some x; oracle table from the real compressors), the bloom filter library (abstract predicate without false negatives; bloom.bf.gz is opaque), the protobuf runtime (wire codec of IndexEntry/MetaData modelled in Model/Proto.lean and tied by byte-exact files), x/exp/mmap, the OS; recordio V1-V3 readers and version-0 tables are not modelled",
+        "trusted_base": COMMON_TB + ["modelled, not verified: gzip/snappy/lzw (law dec (enc x) = some x; oracle table from the real compressors), the bloom filter library (abstract predicate without false negatives; bloom.bf.gz is opaque), the protobuf runtime (wire codec of IndexEntry/MetaData modelled in Model/Proto.lean and tied by byte-exact files), x/exp/mmap, the OS; recordio V1-V3 readers and version-0 tables are not modelled"],
+        "assumptions": ["keys strictly ascending under bytes.Compare", "compressors lawful", "bloom filter has no false negatives"],
+        "explanation": "proof over the model for all inputs; correspondence run ties the model to the current source",
+    },
+    "C09": {
+        "title": "A damaged SSTable data file is detected, never served as different data",
+        "streams": [{"name": "sstdmg", "quick": 20, "thorough": 100, "thorough_seeds": 2}],
+        "technique": "Lean 4 proof (decision logic of verified reads; CRC-64/ISO single-byte law via a kernel-checked 256-entry table fact; truncation lemma of C12) + differential correspondence on exhaustively damaged data files",
+        "level": "proof",
+        "design_ref": "§5 C09",
+        "text": "verified_read_sound / load_verified_sound (a value returned without error has the stored CRC-64 or the stored checksum is 0 — as coded incl. the swallowed EOF and the legacy bypass); payload_alteration_detected (compression none: ANY single-byte change inside a payload makes the verified read fail); truncation_detected (ANY cut length, any lawful compressor: original or error); damage_sound (error, original, or the explicit Crc64Coincides residual) — all under valueSum v != 0 (zero_checksum_unprotected shows why). Tied on every run: every byte offset x {bit flips, 0x00, 0xFF, marker bytes}, every truncation length, swapped records, under each compression type, verify-on-load and verify-on-read; never a different value without error.",
+        "note": "Values whose CRC-64 is 0 are unprotected by format design (known finding, sig value-crc64-zero:checksum-bypass). For header/compressed-payload damage detection is a 64-bit CRC comparison (explicit residual). Trusted: Lean kernel, three standard axioms, harness. " + "modelled, not verified: gzip/snappy/lzw (law dec (enc x) = some x; oracle table from the real compressors), the bloom filter library (abstract predicate without false negatives; bloom.bf.gz is opaque), the protobuf runtime (wire codec of IndexEntry/MetaData modelled in Model/Proto.lean and tied by byte-exact files), x/exp/mmap, the OS; recordio V1-V3 readers and version-0 tables are not modelled",
+        "trusted_base": COMMON_TB + ["modelled, not verified: gzip/snappy/lzw (law dec (enc x) = some x; oracle table from the real compressors), the bloom filter library (abstract predicate without false negatives; bloom.bf.gz is opaque), the protobuf runtime (wire codec of IndexEntry/MetaData modelled in Model/Proto.lean and tied by byte-exact files), x/exp/mmap, the OS; recordio V1-V3 readers and version-0 tables are not modelled"],
+        "assumptions": ["stored checksum of the value is non-zero", "compressors lawful"],
+        "explanation": "proof over the model; correspondence run ties the model to the current source",
+    },
+    "C02": {
+        "title": "Acknowledged writes survive a process kill at any instant (synchronous WAL)",
+        "streams": [{"name": "crash", "args": ["--flavour", "sync"], "quick": 8, "thorough": 24, "thorough_seeds": 2}],
+        "technique": "Lean 4 proof (invariant over every prefix of the file-system event sequence of every session of the abstract-disk model; recovery as a pure function) + real crash images at every system-call boundary (strace) re-opened by the real code and compared with the model's recover",
+        "level": "proof",
+        "design_ref": "§5 C02",
+        "text": "crash_safe_sync: for EVERY step list (client ops, rotations, flushes, compaction cycles, close, re-open) and EVERY prefix n of its file-system event sequence, the disk image satisfies DiskOk, recover succeeds and the recovered map equals the reference after the acknowledged ops, or after those plus the one in flight; crash_safe_sync_after_recovery (composes across crash/reopen cycles); recover_total (DiskOk d -> recover d succeeds with abs = logical d); rejected_call_no_disk_effect. Tie: sessions of the real DB traced with strace, the directory image rebuilt at EVERY mutating system call of any thread, each image re-opened by the real Open in a child process: Open must succeed, every acknowledged op present, in-flight op present-or-absent, one forced compaction cycle after recovery must succeed and change no read; each distinct image is abstracted (tables loaded by the real reader, WAL files decoded, flags decoded) and compared with the model's fs.recover.",
+        "note": "Trusted: Lean kernel, three standard axioms, harness, strace. " + "modelled, not verified: the operating system and file system (kill-9 model: a completed system call is retained, each system call is atomic, rename is atomic, no power loss); table directories, WAL files and compaction directories as abstract objects (partial / complete with content); flusher and compactor steps at operation boundaries in the model (finer interleavings are sampled by the real traces); strace and the image replayer of the crash stream",
+        "trusted_base": COMMON_TB + ["modelled, not verified: the operating system and file system (kill-9 model: a completed system call is retained, each system call is atomic, rename is atomic, no power loss); table directories, WAL files and compaction directories as abstract objects (partial / complete with content); flusher and compactor steps at operation boundaries in the model (finer interleavings are sampled by the real traces); strace and the image replayer of the crash stream"],
+        "assumptions": ["modelled, not verified: the operating system and file system (kill-9 model: a completed system call is retained, each system call is atomic, rename is atomic, no power loss); table directories, WAL files and compaction directories as abstract objects (partial / complete with content); flusher and compactor steps at operation boundaries in the model (finer interleavings are sampled by the real traces); strace and the image replayer of the crash stream"],
+        "explanation": "proof over the abstract-disk model for all sessions and crash points; real crash images tie recover and the event shapes to the current source",
+    },
+    "C10": {
+        "title": "Recovery may be killed at any instant and repeated without changing the outcome",
+        "streams": [{"name": "crash", "args": ["--flavour", "nested"], "quick": 6, "thorough": 8, "thorough_seeds": 2}],
+        "technique": "Lean 4 proof (recovery as an event sequence; every prefix leaves a DiskOk disk with the same logical content; induction over interrupted attempts) + nested real crash images (recovery itself traced and interrupted at every system call, unlink orders permuted)",
+        "level": "proof",
+        "design_ref": "§5 C10",
+        "text": "recover_events_sound (the event sequence of Open produces exactly the disk recover computes); recover_idempotent_under_crash (for EVERY DiskOk disk and EVERY prefix m of recovery's events: the disk is DiskOk, recovers, same content; every unlink order of a directory removal is covered because every intermediate state is 'partial'); recover_after_interruptions (any number of interrupted attempts = none). Tie: depth-2 images from real traces of the recovery of real depth-1 images, other directory-listing orders emulated by permuting unlink runs; each must re-open with the content of the uninterrupted recovery.",
+        "note": "Depth 3 is not run. Trusted as C02.",
+        "trusted_base": COMMON_TB + ["modelled, not verified: the operating system and file system (kill-9 model: a completed system call is retained, each system call is atomic, rename is atomic, no power loss); table directories, WAL files and compaction directories as abstract objects (partial / complete with content); flusher and compactor steps at operation boundaries in the model (finer interleavings are sampled by the real traces); strace and the image replayer of the crash stream"],
+        "assumptions": ["modelled, not verified: the operating system and file system (kill-9 model: a completed system call is retained, each system call is atomic, rename is atomic, no power loss); table directories, WAL files and compaction directories as abstract objects (partial / complete with content); flusher and compactor steps at operation boundaries in the model (finer interleavings are sampled by the real traces); strace and the image replayer of the crash stream"],
+        "explanation": "proof over the abstract-disk model; nested real crash images tie it to the current source",
+    },
+    "C13": {
+        "title": "Asynchronous WAL: a kill loses only a suffix of recent writes, not the database",
+        "streams": [{"name": "crash", "args": ["--flavour", "async"], "quick": 6, "thorough": 18, "thorough_seeds": 2}],
+        "technique": "Lean 4 proof (volatile queue of unwritten log records; file content = prefix of the issued records at every event prefix; rotation drains the queue) + real crash images of async sessions incl. > 4 MiB logs",
+        "level": "proof",
+        "design_ref": "§5 C13",
+        "text": "async_crash_prefix: for every session with the asynchronous WAL, every buffer-flush schedule and every event prefix, recovery succeeds and the recovered map equals the reference after SOME prefix p of the issued mutations with rotMark <= p (every op acknowledged before the last completed rotation is included; no holes, no reordering); issued_is_reference; async_crash_prefix_after_recovery. Tie: traced async sessions (values > the 4 MiB WAL buffer so that buffer flushes cut records), every image re-opened by the real code and checked against the prefix oracle.",
+        "note": "Trusted as C02.",
+        "trusted_base": COMMON_TB + ["modelled, not verified: the operating system and file system (kill-9 model: a completed system call is retained, each system call is atomic, rename is atomic, no power loss); table directories, WAL files and compaction directories as abstract objects (partial / complete with content); flusher and compactor steps at operation boundaries in the model (finer interleavings are sampled by the real traces); strace and the image replayer of the crash stream"],
+        "assumptions": ["modelled, not verified: the operating system and file system (kill-9 model: a completed system call is retained, each system call is atomic, rename is atomic, no power loss); table directories, WAL files and compaction directories as abstract objects (partial / complete with content); flusher and compactor steps at operation boundaries in the model (finer interleavings are sampled by the real traces); strace and the image replayer of the crash stream"],
+        "explanation": "proof over the abstract-disk model; real crash images tie it to the current source",
     },
 }
